@@ -6,7 +6,10 @@
    Structure facts checked by the translator (AST templates, anything else is a translator failure):
      loop order  sleep ; parent_gone_or_changed -> break ; counter -= 1 ; if counter <= 0: reset, utime(lock, None),
      OSError -> break ;  parent_gone_or_changed = (getppid() != pid or == 1) or kill(pid, 0) raises OSError ;
-     is_failed = is_locked() and st_mtime <= time() - expiry ;  fail() = os.utime(fullname, _FAILED_TIMESTAMP). *)
+     is_failed = is_locked() and st_mtime <= time() - expiry ;  file_based_lock.fail() = os.utime(fullname, _FAILED_TIMESTAMP) ;
+     file_keepalive_based_lock:  fail() = stop_monitor() ; super().fail()   release() = stop_monitor() ; super().release()
+     get() = super().get(), then start_monitor() if acquired ;  stop_monitor() = monitor.kill() unless None ;
+     start_monitor() = Popen([sys.executable, "-m", "jug.backends.file_keepalive_monitor", self.fullname]) (no cwd, no env). *)
 From Coq Require Import ZArith.
 From JugV Require Import Model.Keepalive.
 Local Open Scope Z_scope.
